@@ -1,7 +1,8 @@
 (* C12 — executable model of pyg_base._pandas._df_fillna / df_fillna / _nona / nona.
 
    Data layout (own small vocabulary, no dependency on M_ts / M_align):
-     cell   := option Z           None = NaN; values are carried, never computed
+     val    := Fin z | PInf | NInf   a float that is not NaN: finite (an integer, carried, never computed) or +-inf
+     cell   := option val         None = NaN; +-inf are ordinary non-NaN cells
      vec    := list cell          one column / a Series / a 1-d ndarray
      row    := list cell          one row of a frame
      lframe := list (Z * row)     row-major frame, every row tagged with its index label
@@ -18,7 +19,14 @@
 From Coq Require Import ZArith List Bool Arith.
 Import ListNotations.
 
-Definition cell := option Z.
+Inductive val := Fin (z : Z) | PInf | NInf.
+Definition val_eqb (a b : val) : bool :=
+  match a, b with
+  | Fin x, Fin y => Z.eqb x y
+  | PInf, PInf | NInf, NInf => true
+  | _, _ => false
+  end.
+Definition cell := option val.
 Definition vec := list cell.
 Definition row := list cell.
 Definition lframe := list (Z * row).
@@ -31,7 +39,7 @@ Definition within (lim : option nat) (k : nat) : bool :=
   match lim with None => true | Some L => k <=? L end.
 
 (* ---- pandas Series.ffill(limit): run counter d = distance from the last observation *)
-Fixpoint ffill_from (lim : option nat) (last : option Z) (d : nat) (v : vec) : vec :=
+Fixpoint ffill_from (lim : option nat) (last : option val) (d : nat) (v : vec) : vec :=
   match v with
   | [] => []
   | Some x :: t => Some x :: ffill_from lim (Some x) 0 t
@@ -46,13 +54,13 @@ Definition ffill (lim : option nat) (v : vec) : vec := ffill_from lim None 0 v.
 Definition bfill (lim : option nat) (v : vec) : vec := rev (ffill lim (rev v)).
 
 (* ---- pandas fillna(value = c, limit): the first `limit` NaNs of the column *)
-Fixpoint cfill_from (lim : option nat) (used : nat) (c : Z) (v : vec) : vec :=
+Fixpoint cfill_from (lim : option nat) (used : nat) (c : val) (v : vec) : vec :=
   match v with
   | [] => []
   | Some x :: t => Some x :: cfill_from lim used c t
   | None :: t => (if within lim (S used) then Some c else None) :: cfill_from lim (S used) c t
   end.
-Definition cfill (lim : option nat) (c : Z) (v : vec) : vec := cfill_from lim 0 c v.
+Definition cfill (lim : option nat) (c : val) (v : vec) : vec := cfill_from lim 0 c v.
 
 (* ---- 'ffill_na' / 'ffill_0': last_valid_index, ffill, then overwrite everything after it *)
 Fixpoint last_valid_from (i : nat) (acc : option nat) (v : vec) : option nat :=
@@ -86,7 +94,7 @@ Fixpoint dropwhile {A} (p : A -> bool) (l : list A) : list A :=
 
 (* ---- the dispatcher of _df_fillna *)
 Inductive meth :=
-| MFfill | MBfill | MConst (c : Z) | MNona | MFnna | MFfillNa | MFfill0.
+| MFfill | MBfill | MConst (c : val) | MNona | MFnna | MFfillNa | MFfill0.
 
 Definition vec_op (lim : option nat) (m : meth) : option (vec -> vec) :=
   match m with
@@ -94,7 +102,7 @@ Definition vec_op (lim : option nat) (m : meth) : option (vec -> vec) :=
   | MBfill => Some (bfill lim)
   | MConst c => Some (cfill lim c)
   | MFfillNa => Some (ffill_tail lim None)
-  | MFfill0 => Some (ffill_tail lim (Some 0%Z))
+  | MFfill0 => Some (ffill_tail lim (Some (Fin 0)))
   | MNona | MFnna => None
   end.
 
@@ -122,7 +130,7 @@ Definition fill_array (k : nat) (lim : option nat) (ms : list meth) (rows : list
 Definition cell_is (value : cell) (c : cell) : bool :=
   match value, c with
   | None, None => true
-  | Some v, Some x => Z.eqb x v
+  | Some v, Some x => val_eqb x v
   | _, _ => false
   end.
 Definition masked (value : cell) (p : Z * row) : bool := forallb (cell_is value) (snd p).
